@@ -138,19 +138,17 @@ Fixpoint ascending (l : list Z) : bool :=
 Definition swfb {T} (size : Z) (A : smatrix T) : bool :=
   ascending (skeys A) && forallb (fun k => Z.leb 0 k && Z.ltb k size) (skeys A).
 
-(* sorted union of two ascending key lists *)
-Fixpoint kunion (a : list Z) : list Z -> list Z :=
-  fix inner (b : list Z) : list Z :=
-    match a, b with
-    | [], _ => b
-    | _, [] => a
-    | x :: a', y :: b' =>
-        match Z.compare x y with
-        | Lt => x :: kunion a' b
-        | Eq => x :: kunion a' b'
-        | Gt => y :: inner b'
-        end
-    end.
+(* sorted union of key lists: insertion of each key of `a` into `b` (ascending) *)
+Fixpoint kinsert (x : Z) (l : list Z) : list Z :=
+  match l with
+  | [] => [x]
+  | y :: r => match Z.compare x y with
+              | Lt => x :: l
+              | Eq => l
+              | Gt => y :: kinsert x r
+              end
+  end.
+Definition kunion (a b : list Z) : list Z := fold_right kinsert b a.
 
 Section Sparse.
   Context {T : Type} (O : Ops T).
